@@ -438,7 +438,7 @@ pub fn check(case: &ScCase, st: &mut Stats) -> Result<(), Viol> {
 }
 
 pub fn run(ctx: &RunCtx) -> Vec<PartOutcome> {
-    let n = ctx.tier.pick(60, 1_500);
+    let n = ctx.tier.pick(120, 1_500);
     let max_ops = ctx.tier.pick(8, 14);
     vec![
         explore(ctx, "fault_enumeration", n, || sc_strategy(24, max_ops), check),
